@@ -228,6 +228,16 @@ impl Processor {
                             // over then, so leave the loop and clean up.
                             if session.connected_addr().is_none() {
                                 debug!("session has no connection anymore, done");
+                                // When the peer closed the connection the
+                                // session queued a ConnectionLost message
+                                // right before it dropped the connection:
+                                // count it before leaving.
+                                while let Ok(msg) = rx_sess.try_recv() {
+                                    if let Message::ConnectionLost(socket) = msg {
+                                        self.status_reporter
+                                            .peer_connection_lost(socket);
+                                    }
+                                }
                                 break;
                             }
                         },
